@@ -22,6 +22,8 @@ def main():
         if pid not in CLAIMED:
             continue
         tech, text, note, ref = CLAIMED[pid]
+        if pid in globals().get("EXTRA", {}):
+            text = text + " " + EXTRA[pid]
         checks.append({
             "property_id": pid,
             "quick_cmd": "./run.sh %s --tier quick" % pid,
